@@ -21,6 +21,7 @@ func init() {
 			"R3 every return with a non-nil error is preceded on all paths by Close() of the connection, the only return with a nil error lies on the CEA-channel case, and the message written is loop-invariant and is the result of the CER builder; " +
 			"R4 the CER builder adds Origin-Host/Origin-Realm from the settings, one Host-IP-Address per address and — in unconditional range loops — every element of AuthApplicationID, AcctApplicationID and VendorSpecificApplicationID; " +
 			"R5 the CEA handler is registered before the first write; " +
+			"R7 in smparser.CEA.Parse every return that can carry a nil error is preceded on all paths by each error-returning validation step (unmarshal, mandatory AVPs, applications), is unreachable from their error edges, and is guarded by Result-Code == 2001; and (contradiction rule) in smparser.CEA.Parse and what it calls, no rejection (return of an Err* cause) is guarded by a nil test on the result of a module function that can never produce the tested outcome; " +
 			"R6 no handler closure of package sm (they run on the connection's only reader goroutine for every matching message) performs a blocking channel operation, and every close() of a captured channel is protected by a once-mechanism (the handshake-complete test that the same path then sets). " +
 			"Not decided: real timing, the CEA acceptance predicate (value-level parser logic).",
 		Rules: map[string]string{
@@ -30,8 +31,9 @@ func init() {
 			"R4": "CER content: identity, addresses, every application the client was told to advertise",
 			"R5": "CEA handler registered before the first write",
 			"R6": "handler hygiene: no blocking channel op, close only once-protected",
+			"R7": "CEA acceptance skeleton: every validation step precedes acceptance, Result-Code == 2001, rejection guards live",
 		},
-		MinInstances: map[string]int{"R1": 1, "R2": 1, "R3": 3, "R4": 5, "R5": 1, "R6": 3},
+		MinInstances: map[string]int{"R1": 1, "R2": 1, "R3": 3, "R4": 5, "R5": 1, "R6": 3, "R7": 1},
 		Assumptions:  []string{"time.After(d) fires no earlier than d", "a handler registered on the mux runs on the connection's reader goroutine (C08)"},
 	})
 }
@@ -134,6 +136,10 @@ func runC12(c *Ctx) {
 
 	// ---- R6 ----
 	c.handlerHygiene("R6")
+
+	// ---- R7 ----
+	c.rejectionGuardsLive("R7", "CEA")
+	c.acceptSkeleton("R7", "CEA", true)
 }
 
 // c12CER: content of the CER builder.
